@@ -34,9 +34,9 @@ SPEC = dict(
     ],
     units=[
         pbt("c01_stream", ["harness/c01_stream.cpp", "harness/c01_interpose_net.cpp"], dict(
-            stream=P(260, 2500, 16, 16, q_secs=45, t_secs=600, extra=_SHRINK),
-            tls=P(100, 900, 16, 16, q_secs=45, t_secs=600, extra=_SHRINK),
-            cuts=P(5, 50, 16, 16, q_secs=45, t_secs=600, extra=_SHRINK),
+            stream=P(400, 2500, 16, 16, q_secs=45, t_secs=600, extra=_SHRINK),
+            tls=P(150, 900, 16, 16, q_secs=45, t_secs=600, extra=_SHRINK),
+            cuts=P(6, 50, 16, 16, q_secs=45, t_secs=600, extra=_SHRINK),
         )),
     ],
 )
